@@ -28,6 +28,11 @@ var iosNoise = []string{
 	// unmodelled sections whose lines look like ACL entries
 	"ipv6 access-list unm6\n permit ipv6 host 1000::1 any\n deny ipv6 any any\n",
 	"ip access-list standard unm-std\n permit 10.9.9.0 0.0.0.255\n deny any\n",
+	// banners as 'sh run' prints them: on one line, over several lines,
+	// a one-line banner followed by another one
+	"banner login ^CAuthorized access only^C\n",
+	"banner motd ^C\nmaintenance on friday\n^C\n",
+	"banner exec ^CWelcome^C\nbanner motd ^C\n interface of the week\n^C\n",
 }
 
 // toplevelPositions returns the byte offsets at which a toplevel block
